@@ -1,6 +1,6 @@
 # reg and TB_COMMON are injected by lib/props.py
 reg(id="C11",
-    gen=["counter"],
+    gen=["counter", "globals"],
     model_targets=["C11/Corr.vo"],
     proof_targets=["Props/C11.vo"],
     props_file="Props/C11.v",
